@@ -127,6 +127,7 @@ def run(res, tier, rng, table_diffs=()):
     from .. import gen2
     inputs += gen2.operand_height_programs()
     inputs += [("shrinking-text", p) for p in gen2.shrinking_text_programs()]
+    inputs += [("backslash-wide", p) for p in gen2.backslash_wide_programs()]
     n = 3000 if tier == "quick" else 100000
     for _ in range(n):
         inputs.append(("tokens", " ".join(rng.pick(VOCAB) for _ in range(rng.range(1, 14)))))
